@@ -20,8 +20,8 @@ package main
 //
 // Requests of a PAR block are executed by this file's own executor (the request carries its thread id in its context and
 // nothing of the harness' shared tables is touched off the controller goroutine); setup and observation lines go
-// through H.apply.  Monitors (VERIF_MON): C11.not-linearizable, C11.torn-read, C11.lost-referrer, C11.lost-tag,
-// C11.tag-never-pushed, C11.lost-manifest, C11.deadlock.
+// through H.apply.  Monitors (VERIF_MON): C11.not-linearizable, C11.torn-read, C11.lost-referrer, C11.ghost-referrer,
+// C11.double-ack, C11.lost-tag, C11.tag-never-pushed, C11.lost-manifest, C11.deadlock.
 import (
 	"bufio"
 	"bytes"
@@ -966,6 +966,40 @@ func (c *Conc) statement() {
 			}
 		}
 	}
+	// acknowledged deletes need something to delete: one at a time, a delete answers 202 only if a push came since the
+	// last one.  More acknowledged deletes than acknowledged pushes of a digest or tag: two deletes were acknowledged for
+	// one presence (double-ack).  As many: the last request in any sequential order is a delete, so the manifest is gone
+	// and, being gone, is no referrer of its subject (ghost-referrer)
+	type rk struct{ repo, ref string }
+	nPush, nDel := map[rk]int{}, map[rk]int{}
+	subjOf := map[rk]string{}
+	for _, p := range pushes {
+		nPush[rk{p.repo, p.real}]++
+		if types.RefTagRE.MatchString(p.ref) {
+			nPush[rk{p.repo, p.ref}]++
+		}
+		if bi := h.bodyInfo(p.body); bi.subj != "" && validDigestTok(bi.subj) && (bi.kind == "image" || bi.kind == "index") {
+			subjOf[rk{p.repo, p.real}] = bi.subj
+		}
+	}
+	for _, d := range dels {
+		nDel[rk{d.repo, d.ref}]++
+	}
+	for k, nd := range nDel {
+		if spoiled[k.repo] || nPush[k] == 0 {
+			continue
+		}
+		if nd > nPush[k] {
+			h.mon.flag(h, "C11.double-ack", fmt.Sprintf("%d deletes of %s in %s were acknowledged, %d pushes; schedule %s", nd, h.tk.tokDigest(k.ref), k.repo, nPush[k], c.st.schedStr))
+		}
+		if sj := subjOf[k]; sj != "" && nd >= nPush[k] && *h.conf.API.Referrer.Enabled {
+			rr := h.do("GET", "/v2/"+k.repo+"/referrers/"+h.tk.realDigest(sj), reqOpt{mode: "refs"})
+			if strings.Contains(rr.Body, h.tk.tokDigest(k.ref)+"/") {
+				h.mon.flag(h, "C11.ghost-referrer", fmt.Sprintf("artifact %s of %s: %d pushes and %d deletes were acknowledged, so it is deleted, and the referrers of %s still list it: %s; schedule %s",
+					h.tk.tokDigest(k.ref), k.repo, nPush[k], nd, sj, rr.Body, c.st.schedStr))
+			}
+		}
+	}
 	// a tag resolves to one of the manifests pushed under it, and a tag pushed concurrently by several clients and not
 	// deleted resolves
 	type tk struct{ repo, tag string }
@@ -1118,6 +1152,9 @@ func runStress(h *H, c *Conc, seed, n int) int {
 		}
 		if g.r.Intn(3) == 0 {
 			cs = g.curated()[g.r.Intn(len(g.curated()))]
+		}
+		if os.Getenv("VERIF_PROFILE") == "tagrace" {
+			cs = g.tagRace()
 		}
 		c.st = concState{}
 		h.lineNo = 0
